@@ -23,7 +23,7 @@ CONFIG = {"quick": {"shards": 8, "timeout_s": 600, "kernel_batches": 200, "nets"
           "thorough": {"shards": 16, "timeout_s": 3000, "kernel_batches": 6000, "nets": 3000, "sequences": 1500,
                        "env": {"NUMBA_BOUNDSCHECK": "1"}}}
 REQUIRED_COUNTERS = ["kernel_pairs_hydraulic_incomp", "kernel_pairs_hydraulic_comp", "kernel_pairs_lambda", "kernel_pairs_medium_pressure",
-                     "kernel_pairs_derived_values", "kernel_pairs_thermal", "kernel_pairs_thermal_transient", "kernel_pairs_grouped_sum", "edge_rows_zero_flow",
+                     "kernel_pairs_derived_values", "kernel_pairs_thermal", "kernel_pairs_thermal_transient", "kernel_pairs_grouped_sum", "grouped_sum_wide_dynamic_range", "edge_rows_zero_flow",
                      "edge_rows_equal_pressures", "edge_rows_reverse_flow", "edge_rows_zero_length", "edge_rows_nan_flow",
                      "engine_pairs_compared", "engine_pairs_thermal", "engine_pairs_gas", "update_sequences_compared", "update_sequences_hydraulics",
                      "update_sequences_sequential", "update_sequences_bidirectional", "update_sequences_with_pressure_controller", "update_steps_with_changed_loads"]
@@ -198,6 +198,11 @@ def run_kernels(case, obs):
     if k and rng.random() < 0.5:
         idx[0] = top
     v1, v2 = rng.uniform(-5, 5, k), rng.uniform(0, 1, k)
+    if k > 3 and rng.random() < 0.5:
+        # one entry many orders above the others (the friction factor of a creeping-flow pipe is ~1e7): every group's sum must
+        # keep its own accuracy
+        v1[int(rng.integers(k))] *= float(10.0 ** rng.integers(7, 11))
+        obs.count("grouped_sum_wide_dynamic_range")
     try:
         a = it._sum_by_group_np(idx.copy(), v1.copy(), v2.copy())
         b = it._sum_by_group_numba(idx.copy(), v1.copy(), v2.copy())
